@@ -31,6 +31,9 @@ type C12Scenario struct {
 	// annotations) and only `coca api -f -c` runs, on a deps.json that predates the edit
 	CliEdit     []bool  `json:"cli_edit,omitempty"`
 	CliStripped [][]int `json:"cli_stripped,omitempty"`
+	// CliFlags[k]: how step k spells `coca api`: 0 `-f -c`, 1 `-f -c -s`, 2 `-f`, 3 `-f -s`, 4 `-f -c -a <first 4 bytes of the first URI>` (the list
+	// and the csv rows are the same collection under every spelling)
+	CliFlags []int `json:"cli_flags,omitempty"`
 }
 
 type C12 struct{}
@@ -88,6 +91,9 @@ func (C12) Generate(t *tape.Tape, tier string) interface{} {
 		sc.CliTmpOtherFS = t.Bool(1, 3)
 	}
 	sc.CwdIgnore = t.Bool(1, 3)
+	for range sc.CliHistory {
+		sc.CliFlags = append(sc.CliFlags, t.Pick(5))
+	}
 	return sc
 }
 
@@ -343,6 +349,7 @@ func (C12) Run(ctx *sim.RunCtx, data json.RawMessage) (*sim.Outcome, error) {
 			}
 			var want []string
 			var wantRows []string
+			var wantUris []string
 			for pos, fi := range sub {
 				if fi >= n {
 					continue
@@ -361,12 +368,33 @@ func (C12) Run(ctx *sim.RunCtx, data json.RawMessage) (*sim.Outcome, error) {
 				for _, a := range f.Apis {
 					want = append(want, apiKey(a.Verb, a.Uri, a.Body, a.Pkg, a.Class, a.Method))
 					wantRows = append(wantRows, fmt.Sprintf("%s %s %s.%s.%s", a.Verb, a.Uri, a.Pkg, a.Class, a.Method))
+					wantUris = append(wantUris, a.Uri)
 				}
 			}
 			hist = append(hist, fmt.Sprintf("cli%d", len(sub)))
 			out.Faults["durable-reports-carried-over"]++
 			ended := ""
-			cmdLines := [][]string{{"analysis", "-p", src}, {"api", "-p", src, "-f", "-c"}}
+			apiArgs := []string{"api", "-p", src, "-f", "-c"}
+			if k < len(sc.CliFlags) {
+				apiArgs = append([]string{"api", "-p", src}, [][]string{{"-f", "-c"}, {"-f", "-c", "-s"}, {"-f"}, {"-f", "-s"}, {"-f", "-c"}}[sc.CliFlags[k]%5]...)
+				if sc.CliFlags[k]%5 == 4 && len(wantUris) > 0 {
+					// -a <prefix>: api.csv lists the handlers whose URI starts with the prefix (apis.json stays complete)
+					prefix := wantUris[0]
+					if len(prefix) > 4 {
+						prefix = prefix[:4]
+					}
+					apiArgs = append(apiArgs, "-a", prefix)
+					var kept []string
+					for i, u := range wantUris {
+						if strings.HasPrefix(u, prefix) {
+							kept = append(kept, wantRows[i])
+						}
+					}
+					wantRows = kept
+					out.Probes["cli-aggregate-prefix"]++
+				}
+			}
+			cmdLines := [][]string{{"analysis", "-p", src}, apiArgs}
 			if edit {
 				cmdLines = cmdLines[1:]
 			}
